@@ -300,7 +300,14 @@ impl TypeAddress {
             let mut others = has_same_name.clone();
             others.push(self.clone());
             others.retain(|it| it != addr);
-            to_valid_ts_identifier(&Self::min_file_path_that_differs(&addr.file, &others))
+            let prefix =
+                to_valid_ts_identifier(&Self::min_file_path_that_differs(&addr.file, &others));
+            // the name starts with the path: `1a.ts` must not give an identifier that starts with a digit
+            if prefix.starts_with(|c: char| c.is_ascii_digit()) {
+                format!("_{}", prefix)
+            } else {
+                prefix
+            }
         };
         let prefix = prefix_of(self);
         // `a/b.ts` and `a_b.ts` are different files with the same sanitized path: number them (in the order of the paths)
